@@ -44,6 +44,8 @@ var c11Poisons = []c11poison{
 	{"raw-ws-text", []string{"websocket", "websocket-fast"}, "service"},
 	{"oversized-request", []string{"udp"}, "service"}, {"oversized-response", []string{"udp"}, "service"},
 	{"huge-response", []string{"socket", "websocket", "http"}, "service"},
+	{"too-large-request", nil, "service"},
+	{"udp-response-size-window", []string{"udp"}, "service"}, {"udp-request-size-window", []string{"udp"}, "service"},
 	{"resp-short-header", []string{"socket", "udp"}, "rawserver"}, {"resp-bad-crc", []string{"socket", "udp"}, "rawserver"},
 	{"resp-garbage-body", []string{"socket", "udp", "websocket"}, "rawserver"}, {"resp-error-frame", []string{"socket", "udp", "websocket"}, "rawserver"},
 	{"resp-ws-short-0", []string{"websocket"}, "rawserver"}, {"resp-ws-short-2", []string{"websocket"}, "rawserver"}, {"resp-ws-short-3", []string{"websocket"}, "rawserver"},
@@ -129,6 +131,9 @@ func scenC11(r *Run) {
 		return
 	}
 	service := core.NewService()
+	// what the plugins, the missing-method handler and the timeout-wrapped function panic with
+	pv := r.Plan(9)
+	r.Param("panic_value", pv)
 	service.AddFunction(func(x int) int { return x + 1 }, "ok")
 	service.AddFunction(func(k int) int { c11boom(k); return k }, "boom")
 	service.AddFunction(func(n int) string { return strings.Repeat("r", n) }, "big")
@@ -140,18 +145,21 @@ func scenC11(r *Run) {
 	}, "slow")
 	service.AddMissingMethod(func(name string, args []interface{}) ([]interface{}, error) {
 		if name == "missboom" {
+			c11boom(pv)
 			panic("missing-method boom")
 		}
 		return nil, errors.New("no such method: " + name)
 	})
 	service.Use(func(ctx context.Context, name string, args []interface{}, next core.NextInvokeHandler) ([]interface{}, error) {
 		if name == "plugboom" {
+			c11boom(pv)
 			panic("invoke plugin boom")
 		}
 		return next(ctx, name, args)
 	})
 	service.Use(func(ctx context.Context, request []byte, next core.NextIOHandler) ([]byte, error) {
 		if strings.Contains(string(request), "IOBOOM") {
+			c11boom(pv)
 			panic("io plugin boom")
 		}
 		return next(ctx, request)
@@ -159,6 +167,10 @@ func scenC11(r *Run) {
 	if poison == "timeout-wrapped-panic" {
 		service.Use(timeout.New(5 * time.Second).Handler)
 	}
+	if poison == "too-large-request" {
+		service.MaxRequestLength = 2000
+	}
+	service.AddFunction(func(s string) int { return len(s) }, "length")
 	fx := NewFixture(r, kind, service)
 	if pool {
 		if r.PlanBool(2) {
@@ -203,7 +215,8 @@ func scenC11(r *Run) {
 	// 2. the poison, with sentinels racing on the same and on another connection
 	var pz *c11call
 	poisonDone, d1done, d2done := false, false, false
-	var d1, d2 *c11call
+	var d1, d1b, d2 *c11call
+	windowN := 0
 	sim.Task("poison", func() {
 		sim.Fault("poison")
 		switch poison {
@@ -213,7 +226,7 @@ func scenC11(r *Run) {
 				"fn-panic-typed-nil-error": 6, "fn-panic-error-whose-Error-panics": 7, "fn-panic-stringer-that-panics": 8}[poison]
 			pz = invoke(c1, "poison", "boom", k)
 		case "timeout-wrapped-panic":
-			pz = invoke(c1, "poison", "boom", 0)
+			pz = invoke(c1, "poison", "boom", pv)
 		case "missing-panic":
 			pz = invoke(c1, "poison", "missboom", 1)
 		case "invoke-plugin-panic":
@@ -254,6 +267,20 @@ func scenC11(r *Run) {
 		case "oversized-response":
 			n := []int{65500, 65507, 70000, 200000}[r.Plan(4)]
 			pz = invoke(c1, "poison", "big", n)
+		case "too-large-request":
+			// refused by the service's own limit: an error for this call (the transport may close the connection)
+			pz = invoke(c1, "poison", "length", strings.Repeat("q", 2000+r.Plan(3000)))
+		case "udp-response-size-window", "udp-request-size-window":
+			// sizes around the largest body a datagram carries (65,499): whether the call succeeds depends on
+			// the encoded size; either way it is this call's business only
+			n := 65470 + r.Plan(45)
+			r.Param("size", n)
+			windowN = n
+			if poison == "udp-response-size-window" {
+				pz = invoke(c1, "poison", "big", n)
+			} else {
+				pz = invoke(c1, "poison", "length", strings.Repeat("q", n))
+			}
 		case "huge-response":
 			big := invoke(c1, "large", "big", 1<<20)
 			if big.err != nil || len(big.res) != 1 || len(fmt.Sprint(big.res[0])) != 1<<20 {
@@ -291,7 +318,15 @@ func scenC11(r *Run) {
 		}
 		poisonDone = true
 	})
-	sim.Task("during-c1", func() { d1 = invoke(c1, "during-c1", "ok", 10); d1done = true })
+	sim.Task("during-c1", func() {
+		d1 = invoke(c1, "during-c1", "ok", 10)
+		if d1.err != nil {
+			// it shared the connection the fault ended; now that it has been told, an immediate new attempt
+			// must not be handed that dead connection again
+			d1b = invoke(c1, "during-c1-again", "ok", 11)
+		}
+		d1done = true
+	})
 	sim.Task("during-c2", func() { d2 = invoke(c2, "during-c2", "ok", 20); d2done = true })
 	st := sim.Drive(func() bool { return poisonDone && d1done && d2done })
 	if sim.Failure() != nil {
@@ -305,12 +340,26 @@ func scenC11(r *Run) {
 		r.Fail(cls("call-never-returns"), "status %v: poison done %v, sentinel on same connection done %v, on other connection done %v; parked %v", st, poisonDone, d1done, d2done, sim.ParkedNames())
 		return
 	}
-	if pz != nil && pz.err == nil {
+	if pz != nil && pz.err == nil && windowN > 0 {
+		// a call at the size boundary may fit: then its result must be right
+		got := ""
+		if len(pz.res) == 1 {
+			got = fmt.Sprint(pz.res[0])
+		}
+		if (poison == "udp-response-size-window" && len(got) != windowN) || (poison == "udp-request-size-window" && got != fmt.Sprint(windowN)) {
+			r.Fail(cls("wrong-result"), "the boundary-size call (%d) returned a result of %d bytes without error", windowN, len(got))
+			return
+		}
+	} else if pz != nil && pz.err == nil {
 		r.Fail(cls("poisoned-call-succeeded"), "the poisoned call returned %v without error", pz.res)
 		return
 	}
 	if !okResult(d2, 20) {
 		r.Fail(cls("other-connection-affected"), "a healthy call on another connection, concurrent with the fault, ended with %v %v", d2.res, d2.err)
+		return
+	}
+	if d1b != nil && d1b.err != nil && pz != nil && pz.err != nil && d1.err.Error() == pz.err.Error() && d1b.err.Error() == d1.err.Error() {
+		r.Fail(cls("stale-connection-handed-out"), "a healthy call sharing the faulty call's connection failed with the connection's error (%v); issued again at once, it failed with the same error again although the server is healthy: it was given the dead connection", d1.err)
 		return
 	}
 	if d1.err == nil && !okResult(d1, 10) {
@@ -642,7 +691,15 @@ func c11RawServer(r *Run, sim *verifsim.Sim, kind, poison string) {
 	var pz, d1, d2 res
 	n := 0
 	sim.Task("poison", func() { pz = call(c1, "poison", 666); n++ })
-	sim.Task("during-c1", func() { d1 = call(c1, "during-c1", 10); n++ })
+	var d1b *res
+	sim.Task("during-c1", func() {
+		d1 = call(c1, "during-c1", 10)
+		if d1.err != nil {
+			x := call(c1, "during-c1-again", 11)
+			d1b = &x
+		}
+		n++
+	})
 	sim.Task("during-c2", func() { d2 = call(c2, "during-c2", 20); n++ })
 	st := sim.Drive(func() bool { return n == 3 })
 	if sim.Failure() != nil {
@@ -666,6 +723,10 @@ func c11RawServer(r *Run, sim *verifsim.Sim, kind, poison string) {
 	}
 	if d1.err == nil && !ok(d1, 10) {
 		r.Fail(cls("wrong-result"), "sentinel on the same connection returned %v", d1.r)
+		return
+	}
+	if d1b != nil && d1b.err != nil && d1.err.Error() == pz.err.Error() && d1b.err.Error() == d1.err.Error() {
+		r.Fail(cls("stale-connection-handed-out"), "a healthy call sharing the connection failed with the connection's error (%v); issued again at once, it failed with the same error again although the peer answers healthy calls: it was given the dead connection", d1.err)
 		return
 	}
 	sim.Drive(func() bool { return false })
